@@ -6,7 +6,10 @@ mod minimise;
 mod plan;
 mod prng;
 mod simio;
+mod refcodec;
+mod w_codec;
 mod w_iovec;
+mod w_stream;
 
 use std::path::Path;
 
@@ -19,7 +22,7 @@ pub const PROPS: &[&str] = &[
     "C18", "C19", "C20",
 ];
 
-pub static WORLDS: &[&'static dyn World] = &[&w_iovec::IovecWorld];
+pub static WORLDS: &[&'static dyn World] = &[&w_iovec::IovecWorld, &w_codec::CodecWorld, &w_codec::LongWorld, &w_stream::StreamWorld];
 
 const DEFAULT_SEED: u64 = 20261004;
 
@@ -63,9 +66,12 @@ fn jobs_for(prop: &'static str, thorough: bool, scale: f64) -> (Vec<Job>, &'stat
     };
     match prop {
         "C03" | "C04" | "C20" => (vec![mk("iovec", 1.0)], "exploration"),
-        "C05" => (vec![mk("iovec", 1.0)], "exploration"),
-        "C10" => (vec![mk("iovec", 1.0)], "exploration"),
-        "C17" => (vec![mk("iovec", 1.0)], "exploration"),
+        "C01" | "C02" | "C07" => (vec![mk("codec", 1.0)], "exploration"),
+        "C09" => (vec![mk("codec", 1.0), mk("longrun", 1.0)], "exploration"),
+        "C06" | "C08" => (vec![mk("stream", 1.0)], "exploration"),
+        "C05" => (vec![mk("iovec", 0.7), mk("codec", 0.6), mk("stream", 0.4)], "exploration"),
+        "C10" => (vec![mk("iovec", 0.5), mk("codec", 0.4), mk("stream", 0.3), mk("longrun", 1.0)], "exploration"),
+        "C17" => (vec![mk("iovec", 0.6), mk("codec", 0.6)], "exploration"),
         _ => {
             eprintln!("harness: no jobs for {}", prop);
             std::process::exit(2)
@@ -134,20 +140,23 @@ fn main() {
             let mut stats = Stats::default();
             let outcome = w.execute(&plan, &mut stats);
             println!("replay world={} ops={} log_hash={:016x}", plan.world, plan.ops.len(), outcome.log_hash);
-            match outcome.violation {
-                Some(v) => {
-                    println!("  invariant {} after op {}: {}", v.inv, v.at_op as i64, v.detail);
-                    if !expected.is_empty() && expected != v.inv {
-                        println!("  (replay file expected invariant {})", expected);
-                    }
-                    println!("VIOLATION property={} replay={}", v.prop, args[2]);
-                    std::process::exit(1);
-                }
-                None => {
-                    println!("no violation");
-                    std::process::exit(0);
-                }
+            if outcome.violations.is_empty() {
+                println!("no violation");
+                std::process::exit(0);
             }
+            for v in &outcome.violations {
+                println!("  invariant {} after op {}: {}", v.inv, v.at_op as i64, v.detail);
+            }
+            let v = outcome
+                .violations
+                .iter()
+                .find(|v| v.inv == expected)
+                .unwrap_or(&outcome.violations[0]);
+            if !expected.is_empty() && expected != v.inv {
+                println!("  (replay file expected invariant {})", expected);
+            }
+            println!("VIOLATION property={} replay={}", v.prop, args[2]);
+            std::process::exit(1);
         }
         "hashes" => {
             // hashes <world> <prop> <seed> <from> <to>: per-run log hashes (determinism protocol)
@@ -164,7 +173,7 @@ fn main() {
             for i in from..to {
                 let plan = w.generate(seed, i, ask);
                 let o = w.execute(&plan, &mut stats);
-                println!("{} {:016x} {}", i, o.log_hash, o.violation.map(|v| v.inv).unwrap_or_default());
+                println!("{} {:016x} {}", i, o.log_hash, o.violations.iter().map(|v| v.inv.clone()).collect::<Vec<_>>().join(","));
             }
         }
         other => {
